@@ -63,6 +63,9 @@ type Stmt struct {
 	// restart, Reinit: between Stop and Start the initial election id is specified again
 	// (Connection().WithInitialElectionID(U, U2)) - it is then the id most recently set
 	Reinit bool `json:"reinit,omitempty"`
+	// queue, Rep > 1: the list of entries is handed over Rep times in the one call (a batch of
+	// thousands of entries)
+	Rep int `json:"rep,omitempty"`
 }
 
 type Case struct {
@@ -532,7 +535,14 @@ func runCase(c Case) *ev.Verdict {
 		case "queue":
 			var es []fluent.GRIBIEntry
 			m := &spb.ModifyRequest{}
-			for _, bi := range st.Bs {
+			bs := st.Bs
+			for r := 1; r < st.Rep; r++ {
+				bs = append(bs[:len(bs):len(bs)], st.Bs...)
+			}
+			if st.Rep > 1 {
+				v.Class("bulk-queue-call")
+			}
+			for _, bi := range bs {
 				if bi >= len(eb) {
 					continue
 				}
@@ -894,6 +904,10 @@ func drawCase(rt *rapid.T) Case {
 			nb := rapid.IntRange(1, 3).Draw(rt, "nentries")
 			for j := 0; j < nb; j++ {
 				st.Bs = append(st.Bs, rapid.IntRange(0, len(kinds)-1).Draw(rt, "b"))
+			}
+			if rapid.IntRange(0, 39).Draw(rt, "bulk?") == 0 {
+				// thousands of entries in one call (sizes around powers of two)
+				st.Rep = (pick(rt, []int{255, 257, 1023, 1024, 1025, 1500, 2049, 4097}, "bulk-size") + nb - 1) / nb
 			}
 			c.Prog = append(c.Prog, st)
 		case k < 17:
